@@ -72,10 +72,12 @@ def run_slice(repo, contig_lists):
 
 
 # ----------------------------------------------------------------------------- BAM writing / reading
-def write_bam(path, case):
+def write_bam(path, case, index=True):
     import pysam
     header = {'HD': {'VN': '1.6', 'SO': 'coordinate'},
               'SQ': [{'SN': n, 'LN': l} for n, l in case['contigs']]}
+    if case.get('rg_header'):
+        header['RG'] = [{'ID': g, 'SM': 'upstream', 'PL': 'ILLUMINA'} for g in case['rg_header']]
     with pysam.AlignmentFile(path, 'wb', header=header) as out:
         for r in case['records']:
             a = pysam.AlignedSegment(out.header)
@@ -94,7 +96,8 @@ def write_bam(path, case):
             for k, v in r['tags'].items():
                 a.set_tag(k, v)
             out.write(a)
-    pysam.index(path)
+    if index:
+        pysam.index(path)
 
 
 def read_bam(path):
@@ -111,7 +114,8 @@ def read_bam(path):
             recs.append({'n': r.query_name, 'f': r.flag, 't': r.reference_id, 'p': r.reference_start,
                          'c': r.cigarstring or '', 's': r.query_sequence or '',
                          'ql': ''.join(chr(q + 33) for q in (r.query_qualities if r.query_qualities is not None else [])),
-                         'rg': (r.get_tag('RG') if r.has_tag('RG') else None),
+                         'rg': (r.get_tag('RG') if r.has_tag('RG') else None), 'nt': r.next_reference_id, 'q': r.mapping_quality,
+                         'tg': {k: r.get_tag(k) for k in ('SM', 'Fc', 'La', 'LY') if r.has_tag(k)},
                          'id': (r.get_tag('zi') if r.has_tag('zi') else None)})
         res['records'] = recs
     res['bai'] = os.path.exists(path + '.bai')
@@ -129,10 +133,20 @@ def read_bam(path):
     return res
 
 
-def one_run(inp, rd, rargs):
+def make_stale(inp, stale_bai):
+    """history: the input was regenerated in place after an earlier run left its index behind"""
+    import shutil
+    shutil.copy(stale_bai, inp + '.bai')
+    t = os.path.getmtime(inp)
+    os.utime(inp + '.bai', (t - 3600, t - 3600))
+
+
+def one_run(inp, rd, rargs, stale_bai=None):
     import singlecellmultiomics.universalBamTagger.bamtagmultiome as tm
     out = os.path.join(rd, 'out.bam')
     try:
+        if stale_bai:
+            make_stale(inp, stale_bai)
         args = [inp, '-o', out] + list(rargs)
         os.chdir(rd)
         with contextlib.redirect_stdout(io.StringIO()), contextlib.redirect_stderr(io.StringIO()):
@@ -208,19 +222,40 @@ def run_case(k, case, timeout=120):
     d = os.path.join(scratch, 'c%d' % k)
     os.makedirs(d, exist_ok=True)
     inp = os.path.join(d, 'in.bam')
+    import shutil
+    stale_bai = None
     try:
-        write_bam(inp, case)
+        if case.get('stale'):
+            # version 1 of the file (other content), indexed; then version 2 written over it, index left behind
+            write_bam(inp, {'contigs': case['stale'].get('contigs', case['contigs']), 'records': case['stale']['records']})
+            stale_bai = os.path.join(d, 'stale.bai')
+            shutil.copy(inp + '.bai', stale_bai)
+            write_bam(inp, case, index=False)
+            make_stale(inp, stale_bai)
+        else:
+            write_bam(inp, case)
         inp_back = read_bam(inp)   # what htslib stored for the input (ground truth for the comparison)
+        if case.get('slim_input'):
+            inp_back = {'n_records': len(inp_back['records'])}
     except BaseException as e:
         return {'fatal': 'writing the input BAM failed: %s: %s' % (type(e).__name__, e)}
     runs = []
     for j, rargs in enumerate(case['runs']):
         rd = os.path.join(d, 'r%d' % j)
         os.makedirs(rd, exist_ok=True)
-        runs.append(isolated(lambda: one_run(inp, rd, rargs), timeout))
-    import shutil
+        runs.append(isolated(lambda: one_run(inp, rd, rargs, stale_bai), timeout))
+    # re-tagging histories: the output of run j is tagged again with other options
+    retag = []
+    for k, (j, rargs) in enumerate(case.get('retag', [])):
+        src = os.path.join(d, 'r%d' % j, 'out.bam')
+        rd = os.path.join(d, 't%d' % k)
+        os.makedirs(rd, exist_ok=True)
+        if not os.path.exists(src):
+            retag.append({'error': 'NoInput: run %d produced no output' % j})
+        else:
+            retag.append(isolated(lambda: one_run(src, rd, rargs), timeout))
     shutil.rmtree(d, ignore_errors=True)
-    return {'runs': runs, 'input': inp_back}
+    return {'runs': runs, 'input': inp_back, 'retag': retag}
 
 
 def handler(p):
